@@ -230,6 +230,13 @@ def check_replace(tree, what, bad):
             if not md:
                 bad('C16-replace', f'{what}: _replace does not copy the position metadata onto the new object')
             continue
+        shared_md = [s_ for s_ in steps if s_[0] == 'E' and s_[1] == 'attrstore' and isinstance(s_[2], tuple)
+                     and s_[2][:1] == ('ATTR',) and s_[2][2] == '_metadata']
+        if shared_md:
+            bad('C16-replace', f'{what}: _replace stores {P.tfmt(shared_md[0][3])[:60]} as the `_metadata` of the copy: the '
+                               f'copy must own its metadata (entries copied with update), otherwise writing the position '
+                               f'of one object changes the other - the original is no longer untouched')
+            continue
         if p.end[1] not in (new, alt):
             bad('C16-replace', f'{what}: _replace returns {P.tfmt(p.end[1])}; the copy must be built through '
                                f'the class, self.__class__(**kw), so that it starts with fresh caches '
